@@ -210,10 +210,12 @@ protected:
 template<typename T, typename Base>
 inline void shared_future<T,Base>::resolve_cb::charge(std::shared_ptr<future_internal> ptr) {
         this->set_resume_fn([](awaiter *x, auto) noexcept -> suspend_point<void>{
+            COCLS_VERIF_POINT(sf_tracer_fire);
             static_cast<resolve_cb *>(x)->_ptr = nullptr;
             return {};
         });
        _ptr = ptr;
+       COCLS_VERIF_POINT(sf_charge_pre_sub);
        if (!(ptr->operator co_await()).subscribe(&ptr->resolve_tracer)) {
            _ptr = nullptr;
       }
